@@ -437,7 +437,7 @@ func fieldName2(f *ssa.Field) string {
 	if s == nil {
 		return ""
 	}
-	return s.Field(f.Field).Name()
+	return core.CanonFieldName(s, f.Field)
 }
 
 // dfsCallbackBenign: the callback literal passed to DFS returns only nil or the result of calling its `next` parameter.
